@@ -434,6 +434,8 @@ impl Generator {
             font_index: 0,
             mode: Mode::Provider,
             rewrap_woff2: false,
+            woff2_tail_blocks: 0,
+            woff2_meta_blocks: 0,
             wrap_woff2: false,
             wrap_opts: None,
             surgery: Vec::new(),
@@ -655,6 +657,11 @@ impl Generator {
             };
             if info.container == Container::Woff2 && rng.pct(60) {
                 t.rewrap_woff2 = true;
+                if rng.pct(5) {
+                    t.woff2_tail_blocks = *rng.pick(&[1u32, 4, 40, 250]);
+                } else if rng.pct(4) {
+                    t.woff2_meta_blocks = *rng.pick(&[1u32, 4, 40, 250]);
+                }
             }
             for _ in 0..nfaults {
                 if let Some(f) = gen_file_fault(rng, info, t.rewrap_woff2) {
@@ -692,6 +699,9 @@ impl Generator {
             t.ops.push(Op::Load {
                 index: t.font_index,
             });
+        }
+        if t.woff2_meta_blocks > 0 {
+            t.ops.push(Op::Metadata);
         }
         for _ in 0..nops {
             let kind = if !touched.is_empty() && rng.pct(65) {
